@@ -233,6 +233,15 @@ def structural_cases():
     a(('group-member-numprocs', [G('g', 'a'), P('a', *n2)], [G('g', 'a'), P('a', *n3)], ([], ['g'], [])))
     a(('group-priority', [G('g', 'a'), P('a')], [G('g', 'a', ('priority', '3')), P('a')], ([], ['g'], [])))
     a(('group-rename', [G('g', 'a'), P('a')], [G('h', 'a'), P('a')], (['h'], [], ['g'])))
+    a(('member-moves-between-groups', [G('g1', 'a,b'), G('g2', 'c'), P('a'), P('b'), P('c')],
+       [G('g1', 'a'), G('g2', 'c,b'), P('a'), P('b'), P('c')], ([], ['g1', 'g2'], [])))
+    a(('member-moves-to-new-group', [G('g1', 'a,b'), P('a'), P('b')], [G('g1', 'a'), G('g2', 'b'), P('a'), P('b')],
+       (['g2'], ['g1'], [])))
+    a(('members-swap-groups', [G('g1', 'a'), G('g2', 'b'), P('a'), P('b')], [G('g1', 'b'), G('g2', 'a'), P('a'), P('b')],
+       ([], ['g1', 'g2'], [])))
+    a(('priority-only-program', [P('a'), P('b')], [P('a', ('priority', '5')), P('b')], ([], ['a'], [])))
+    a(('priority-only-pool', [L('l'), P('b')], [L('l', ('priority', '5')), P('b')], ([], ['l'], [])))
+    a(('priority-only-member', [G('g', 'a,b'), P('a'), P('b')], [G('g', 'a,b'), P('a'), P('b', ('priority', '5'))], ([], ['g'], [])))
     a(('pool-buffer', [L('l')], [L('l', ('buffer_size', '50'))], ([], ['l'], [])))
     a(('pool-events-more', [L('l')], [('eventlistener:l', [('command', '/bin/cat'), ('events', 'TICK_5,PROCESS_STATE')])],
        ([], ['l'], [])))
@@ -539,6 +548,19 @@ def update_scenarios_exhaustive(tier):
     # corrupt file at update time
     out.append({'groups': base(), 'added': ['n1'], 'args': [], 'corrupt': True, 'label': 'corrupt'})
     out.append({'groups': base(), 'added': ['n1'], 'args': ['a'], 'corrupt': True, 'label': 'corrupt-named'})
+    # other ways a group changes: its own options, its priority, its members
+    for kind, how in (('fcgi', 'socket_mode'), ('fcgi', 'socket_backlog'), ('listener', 'buffer_size'), ('listener', 'events'),
+                      ('program', 'priority'), ('group', 'priority'), ('listener', 'priority'), ('program', 'environment'),
+                      ('program', 'stdout_logfile')):
+        for recipe in ('running', 'starting'):
+            ms = [_m('t', recipe)] if kind != 'group' else [_m('t1', recipe), _m('t2', 'backoff')]
+            g = _g('t', kind, 'change', ms)
+            g['change_opt'] = how
+            out.append({'groups': by() + [g], 'added': [], 'args': [], 'corrupt': False, 'label': 'how:%s:%s:%s' % (kind, how, recipe)})
+    for args in ([], ['g1'], ['all']):
+        out.append({'groups': by() + [_g('g1', 'group', 'change', [_m('a', 'running'), _m('b', 'running', True)]),
+                                      _g('g2', 'group', 'change', [_m('c', 'starting')])],
+                    'moves': [('b', 'g1', 'g2')], 'added': [], 'args': args, 'corrupt': False, 'label': 'move-member:%s' % ' '.join(args)})
     # a listener pool whose events= line is only reordered is left alone
     for recipe in ('running', 'stopped'):
         for evs in (['PROCESS_COMMUNICATION', 'SUPERVISOR_STATE_CHANGE', 'EVENT'], ['TICK_5', 'PROCESS_LOG', 'PROCESS_STATE', 'TICK_60']):
@@ -577,6 +599,9 @@ def random_update_scenario(rng):
             m['name'] = n
             ms = [m]
         groups.append(_g(n, kind, fate, ms))
+        groups[-1]['change_opt'] = rng.choice({'program': ['umask', 'priority', 'environment', 'stdout_logfile'],
+                                               'group': ['umask', 'priority'], 'fcgi': ['umask', 'socket_mode', 'socket_backlog'],
+                                               'listener': ['umask', 'buffer_size', 'events', 'priority']}[kind])
         if kind == 'listener' and rng.random() < 0.5:
             groups[-1]['events'] = rng.sample(['TICK_5', 'PROCESS_LOG', 'PROCESS_STATE', 'TICK_60', 'EVENT', 'PROCESS_COMMUNICATION'], 3)
             groups[-1]['reorder'] = True
@@ -632,8 +657,8 @@ def format_corruption_cases(base, tier):
     for h in hosts:
         good, _ = host(h, None, None)
         for opt, tmpl in sorted(FORMAT_STRING_OPTIONS.items()):
-            for p, bad in payloads:
-                if quick and h != 'program' and not bad:
+            for k, (p, bad) in enumerate(payloads):
+                if quick and h != 'program' and (not bad or (k + len(opt)) % 3):
                     continue
                 secs, _ = host(h, opt, tmpl % p)
                 add('format:%s:%s=%s' % (h, opt, tmpl % p), good, secs, bad and opt in FORMAT_MUST_FAIL_OPTIONS)
@@ -716,11 +741,70 @@ def reread_sequences(tier):
                             continue
                         s1, _ = host(h, option, t1)
                         s2, _ = host(h, option, t2)
-                        if quick and len(vals) > 4 and option not in important and (vals.index((t1, k1)) + vals.index((t2, k2))) % 2:
+                        if quick and option not in important and (vals.index((t1, k1)) + vals.index((t2, k2))) % 2:
                             continue
                         out.append(('seq:fresh:%s:%s:%r' % (h, option, [t1, t2]), [[BYSTANDER], s1, s2]))
                         if (option in LOGFILE_OPTIONS + ('environment', 'socket_mode')) or not quick:
                             for (t0, k0) in vals[:2]:
                                 s0, _ = host(h, option, t0)
                                 out.append(('seq:active:%s:%s:%r' % (h, option, [t0, t1, t2]), [s0, s1, s2]))
+    return out
+
+
+# ------------------------------------------------ broken files inside edit sequences
+
+def broken_sequences(base):
+    """(label, [step, ...]) where a step is a text or (text, mark): mark names a breakage, '!' in front
+    when the reader must reject it.  Each kind of breakage stands once right after the start
+    (good -> BROKEN -> fixed and really changed) and once after a good edit (good -> edited -> BROKEN ->
+    fixed), so the reread after the repair must report the real difference against the groups
+    that are still active from the start."""
+    out = []
+
+    def texts_for(good, edited):
+        g0 = base + render(good)
+        g1 = base + render(edited)
+        return g0, g1
+
+    def add(label, g0, g1, bad, mark):
+        out.append(('broken:first:' + label, [g0, (bad, mark), g1]))
+        out.append(('broken:later:' + label, [g0, g1, (bad, mark), g0]))
+        out.append(('broken:twice:' + label, [g0, (bad, mark), (bad, mark), g1, (bad, mark)]))
+
+    for h, option, text in BAD_OPTIONS:
+        good, target = host(h, None, None)
+        edited = [(hdr, opts + ([('startsecs', '7')] if i == 0 and not hdr.startswith('group:') else []))
+                  for i, (hdr, opts) in enumerate(good)]
+        if good[0][0].startswith('group:'):
+            edited = [good[0], (good[1][0], good[1][1] + [('startsecs', '7')])] + good[2:]
+        edited = edited + [('program:added', [('command', '/bin/cat')])]
+        if option == 'stopasgroup+':
+            bad, _ = host(h, 'stopasgroup', 'true')
+            bad[0] = (bad[0][0], bad[0][1] + [('killasgroup', 'false')])
+        else:
+            bad, _ = host(h, option, text)
+        g0, g1 = texts_for(good, edited)
+        add('%s:%s=%r' % (h, option, text), g0, g1, base + render(bad), '!bad option value')
+    good = [P('a'), L('l'), BYSTANDER]
+    edited = [P('a', ('umask', '027')), L('l', ('buffer_size', '30')), P('added')]
+    g0, g1 = texts_for(good, edited)
+    body = render(edited)
+    for label, data, mark in [
+        ('file-deleted', None, '!file deleted'),
+        ('file-empty', '', '!empty file'),
+        ('no-supervisord-section', body, '!no [supervisord] section'),
+        ('garbage-before-sections', 'this is not ini\n' + g1, '!text before the first section'),
+        ('line-without-delimiter', g1 + '[program:q]\ncommand=/bin/cat\nthis line has no delimiter\n', '!line without = or :'),
+        ('invalid-utf8', g1.encode('utf-8') + b'[program:q]\ncommand=/bin/\xff\xfe\n', '!bytes that are not UTF-8'),
+        ('program-without-command', g1 + '[program:q]\nautostart=false\n', '!program without command'),
+        ('bad-supervisord-option', g1.replace('[supervisord]\n', '[supervisord]\nminfds=lots\n', 1), '!bad [supervisord] value'),
+        ('bad-inet-server', g1 + '[inet_http_server]\nport=notaport\n', '![inet_http_server] port'),
+        ('include-without-files', g1 + '[include]\n', '![include] without files'),
+        ('format-type-mismatch', g1 + '[program:q]\ncommand=/bin/cat %(program_name)d\n', '!%d of a string'),
+        ('format-unknown-name', g1 + '[program:q]\ncommand=/bin/cat %(nosuch)s\n', '!unknown expansion'),
+        ('unknown-key-bad-value', g1 + '[program:q]\ncommand=/bin/cat\nnosuchkey=%(x)d\n', 'unknown key (ignored by the reader)'),
+        ('unknown-section', g1 + '[nosuchsection]\nkey=%(x)d\n', 'unknown section (ignored by the reader)'),
+        ('unterminated-header', g1 + '[program:q\ncommand=/bin/cat\n', 'unterminated section header'),
+    ]:
+        add(label, g0, g1, data, mark)
     return out
